@@ -207,8 +207,12 @@ def _numeric_sigfig(x, args, kw):
             return x
         tup = Decimal(repr(abs(x))).as_tuple()
         digits = list(tup.digits)
+        exponent = tup.exponent
+        while len(digits) > 1 and digits[-1] == 0:          # repr(1e14) is '100000000000000.0': drop trailing zeros
+            digits.pop()
+            exponent += 1
         n = len(digits)
-        p = n + tup.exponent                       # digits before the decimal point (may be <= 0 or > 15)
+        p = n + exponent                           # digits before the decimal point (may be <= 0 or > 15)
         digits15 = digits + [0] * (15 - n)
         if p > 15:
             digits15 = digits15 + [0] * (p - 15)
@@ -268,7 +272,9 @@ def h13_decimal_num(x, negative_style, thousands, places, percent):
     assert len(ip) >= 1
     if places != DECIMAL_PLACES_AUTO:
         assert len(fp) == places
-    shown = int(ip + fp) if ip + fp != "" else 0          # shown * 10^-len(fp)
+    for ch in ip + fp:
+        assert "0" <= ch <= "9"                            # plain decimal notation: no exponent, nothing else
+    shown = int(ip + fp)                                   # shown * 10^-len(fp)
     tup = Decimal(repr(abs(x))).as_tuple()
     D = 0
     for d in tup.digits:
